@@ -46,6 +46,7 @@ type Case struct {
 	Chunk   o4pair.Chunker `json:"chunk"`
 	ReadSz  []int          `json:"read_sz"`
 	End     string         `json:"end,omitempty"`     // network error after the tampered bytes: eof (default) | timeout | other
+	Joint   bool           `json:"joint,omitempty"`   // the last chunk and the error are returned by the SAME underlying Read (n > 0, err != nil)
 	Persist int            `json:"persist,omitempty"` // the caller keeps calling Read after the first error: so many more error-returning Reads
 }
 
@@ -482,14 +483,25 @@ func (x *runner) runCase(c Case, o *Outcome) {
 	o.Stats["damaged-frame"] = dmg
 
 	sizes := c.Chunk.Split(len(tw), frameEnds(frames))
-	pr.Deliver(c.Dir, tw, sizes)
 	end := c.End
 	if end == "" {
 		end = "eof"
 	}
-	pr.Fail(c.Dir, end)
-	model.Deliver(c.Dir, tw, sizes)
-	model.Fail(c.Dir, end)
+	jointLen := 0 // bytes that arrive together with the network error (which then takes priority over a frame error)
+	if c.Joint && len(sizes) > 0 {
+		jointLen = sizes[len(sizes)-1]
+		cut := len(tw) - jointLen
+		pr.Deliver(c.Dir, tw[:cut], sizes[:len(sizes)-1])
+		pr.FailWith(c.Dir, tw[cut:], end)
+		model.Deliver(c.Dir, tw[:cut], sizes[:len(sizes)-1])
+		model.FailWith(c.Dir, tw[cut:], end)
+		o.Stats["joint-data+error"] = 1
+	} else {
+		pr.Deliver(c.Dir, tw, sizes)
+		pr.Fail(c.Dir, end)
+		model.Deliver(c.Dir, tw, sizes)
+		model.Fail(c.Dir, end)
+	}
 	rd := pr.Reader(c.Dir)
 	blocked := rd.Drain(next)
 	o.ErrClass = o4pair.ErrClass(rd.Err)
@@ -513,12 +525,10 @@ func (x *runner) runCase(c Case, o *Outcome) {
 		o.V = &verdict{"delivered-past-damaged-frame", fmt.Sprintf("%s: after %s the first damaged frame is #%d (wire offset %d); intact data before it: %d bytes; delivered: %d bytes (error reported: %v)", dn, c.T.Op, dmg, fd, allowed, len(rd.Got), rd.Err)}
 	case blocked || rd.Err == nil:
 		o.V = &verdict{"no-error-reported", fmt.Sprintf("%s: after %s followed by EOF, Read reported no error (blocked=%v, delivered %d)", dn, c.T.Op, blocked, len(rd.Got))}
-	case o.Class == "altered" && dmg < len(frames) && len(tw)-frames[dmg].Start-acceptedForged >= 2+1446 && strings.HasPrefix(o.ErrClass, "net:"):
+	case o.Class == "altered" && dmg < len(frames) && len(tw)-jointLen-frames[dmg].Start-acceptedForged >= 2+1446 && strings.HasPrefix(o.ErrClass, "net:"):
 		// the damaged frame and at least a maximum-length frame of bytes after its length field
 		// were fed, yet only the EOF was reported: the damage itself went unnoticed
 		o.V = &verdict{"damage-unnoticed", fmt.Sprintf("%s: after %s (frame %d) with %d bytes fed from the damaged frame on, Read reported only the network error (%s)", dn, c.T.Op, dmg, len(tw)-frames[dmg].Start, o.ErrClass)}
-	case !tampered && len(rd.Got) != len(want):
-		o.V = &verdict{"honest-stream-not-delivered", fmt.Sprintf("%s: untampered burst: %d of %d bytes before %v", dn, len(rd.Got), len(want), rd.Err)}
 	}
 	if o.V != nil {
 		return
@@ -531,6 +541,22 @@ func (x *runner) runCase(c Case, o *Outcome) {
 		}
 	}
 	o.TieOK += model.Points()
+	if !tampered {
+		// nothing lost: when the error came together with the last bytes Read hands over at most
+		// len(buf) of them with it; a caller that keeps reading must get the rest
+		for k := 0; k < 1+2*(len(want)-len(rd.Got)) && len(rd.Got) < len(want); k++ {
+			before := len(rd.Got)
+			rd.Resume()
+			rd.Drain(next)
+			if rd.Panic != nil || rd.Stuck || len(rd.Got) == before {
+				break
+			}
+		}
+		if !bytes.Equal(rd.Got, want) {
+			o.V = &verdict{"honest-stream-not-delivered", fmt.Sprintf("%s: untampered burst ending with %s (joint=%v): %d of %d bytes ever delivered", dn, end, c.Joint, len(rd.Got), len(want))}
+			return
+		}
+	}
 	// a caller that keeps reading after the error must still never get anything but a prefix,
 	// and nothing from the damaged frame on
 	for k := 0; k < c.Persist && tampered; k++ {
@@ -666,6 +692,7 @@ func genRandom(rng *vlib.Rng, i int) Case {
 		c.Persist = rng.Range(1, 3)
 	}
 	c.End = vlib.Pick(rng, []string{"eof", "eof", "timeout", "other"})
+	c.Joint = rng.Intn(3) == 0
 	c.Chunk = pickChunker(rng)
 	c.ReadSz = pickReads(rng)
 	return c
@@ -756,6 +783,7 @@ func (a *agg) record(o Outcome) {
 	r.Count("victim", o4pair.DirName(c.Dir))
 	r.Count("iat-mode", fmt.Sprint(c.P.IAT))
 	r.Count("chunker", c.Chunk.Kind)
+	r.Count("ending", fmt.Sprintf("%s joint=%v", map[bool]string{true: "eof", false: c.End}[c.End == ""], c.Joint))
 	if o.Class == "altered" {
 		switch d := o.Stats["delivered-of-target"]; {
 		case d == 0:
@@ -907,6 +935,7 @@ func main() {
 				c := base
 				c.Name = fmt.Sprintf("%s-bit%d", base.Name, bit)
 				c.T = Tamper{Op: "flip", A: bit}
+				c.Joint = bit%5 == 2
 				c.Chunk = allChunkers[bit%len(allChunkers)]
 				c.ReadSz = []int{readClasses[bit%len(readClasses)]}
 				cs = append(cs, c)
@@ -933,6 +962,7 @@ func main() {
 			c := base
 			c.Name = fmt.Sprintf("%s-at%d", base.Name, off)
 			c.T = Tamper{Op: "trunc", A: off}
+			c.Joint = off%4 == 1
 			c.Chunk = allChunkers[off%len(allChunkers)]
 			c.ReadSz = []int{readClasses[off%len(readClasses)]}
 			cs = append(cs, c)
@@ -953,6 +983,7 @@ func main() {
 				c.T, c.Chunk = t, ch
 				c.ReadSz = []int{readClasses[len(cs)%len(readClasses)]}
 				c.Persist = len(cs) % 3
+				c.Joint = len(cs)%4 == 1
 				cs = append(cs, c)
 			}
 		}
